@@ -421,6 +421,23 @@ func runC07(c *Ctx) {
 				rec.Violate("not-verified", "sign", "reference-signed COSE_Sign does not verify: "+err.Error(), in)
 				return
 			}
+			// the per-signer route an application takes to learn WHICH signer is valid: every decoded
+			// COSE_Signature verified on its own with the body's protected bytes as received
+			bodyProt, perr := d.Headers.MarshalProtected()
+			for j, s := range d.Signatures {
+				var e error
+				if perr != nil {
+					break
+				}
+				if guard(rec, "Signature.Verify(per signer)", in, func() { e = s.Verify(vs[j], bodyProt, d.Payload, m.ext) }) {
+					return
+				}
+				rec.Event("Signature.Verify(per signer)")
+				if e != nil {
+					rec.Violate("not-verified", "sign/per-signer", fmt.Sprintf("signature %d of a reference-signed COSE_Sign does not verify through Signature.Verify with the received body protected bytes: %v", j, e), in)
+					return
+				}
+			}
 			c07compareHeaders(rec, d.Headers.Protected, d.Headers.Unprotected, m.layers[0], in)
 			for j, s := range d.Signatures {
 				c07compareHeaders(rec, s.Headers.Protected, s.Headers.Unprotected, m.layers[1+j], in)
